@@ -1270,3 +1270,129 @@ def e2e_cases(rng, n, fixed_only=False):
         ops.append("D")
         cases.append("cap=%d %s | %s :: %s" % (cap, vec(init), " | ".join(stages), " ; ".join(ops)))
     return cases
+
+
+# ---------------------------------------------------------------- drain (polls that race the sender)
+DRAIN_INJ_ALPHA = ("", "push_back(7)", "push_back(7)&push_back(8)", "push_back(7)&push_back(8)&push_back(9)",
+                   "txn{push_back(5)+push_front(6)}", "dropvec", "pop_back&dropvec", "clear")
+
+
+def drain_exhaustive(caps=(1, 2, 3), maxinj=3, maxbehind=None):
+    """one subscriber that is `behind` messages behind when a poll starts; the poll's first `maxinj` drain
+    points carry every combination of DRAIN_INJ_ALPHA; then the stream is polled until it is quiet, the vector
+    is dropped and the stream polled to its end"""
+    cases = []
+    for cap in caps:
+        for fl in "bp":
+            for behind in range(0, (maxbehind if maxbehind is not None else cap + 3)):
+                pre = " ; ".join("push_back(%d)" % (i + 1) for i in range(behind))
+                for n in range(0, maxinj + 1):
+                    for inj in itertools.product(DRAIN_INJ_ALPHA, repeat=n):
+                        ops = ["sub(%s)" % fl] + ([pre] if pre else []) + ["cpoll(0)<%s>" % "|".join(inj)]
+                        ops += ["poll(0)"] * 3
+                        # ... and the vector is dropped (if it still exists): the stream must end on the final contents
+                        ops += ["dropvec", "poll(0)", "poll(0)"]
+                        cases.append("cap=%d :: %s" % (cap, " ; ".join(ops)))
+    return cases
+
+
+def drain_random(rng, n, maxops=30):
+    """random histories; a racing poll is mostly aimed at a subscriber that has something pending (else the
+    first receive attempt answers Pending and no drain point is reached); subscribers are created at top level
+    only, so that their indices do not depend on how many injections a poll consumed"""
+    cases = []
+    for _ in range(n):
+        cap = rng.choice((1, 1, 2, 3, 4, 5, 8))
+        ops = []
+        nsubs = 0
+        live = []
+        pend = {}
+        length = 0
+        val = [0]
+
+        def mut(ln):
+            k = rng.randrange(12)
+            val[0] += 1
+            x = val[0] % 40
+            bad = rng.random() < 0.04
+            if k == 0:
+                a = [x, x + 1][:rng.randrange(3)]
+                return "append" + vec(a), ln + len(a)
+            if k == 1 and rng.random() < 0.4:
+                return "clear", 0
+            if k == 2:
+                return "push_front(%d)" % x, ln + 1
+            if k in (3, 10, 11, 1):
+                return "push_back(%d)" % x, ln + 1
+            if k == 4:
+                return "pop_front", max(0, ln - 1)
+            if k == 5:
+                return "pop_back", max(0, ln - 1)
+            if k == 6:
+                i = ln + 1 if bad else rng.randrange(ln + 1)
+                return "insert(%d,%d)" % (i, x), ln + (0 if i > ln else 1)
+            if k == 7:
+                i = ln if (bad or ln == 0) else rng.randrange(ln)
+                return "set(%d,%d)" % (i, x), ln
+            if k == 8:
+                i = ln if (bad or ln == 0) else rng.randrange(ln)
+                return "remove(%d)" % i, ln - (1 if i < ln else 0)
+            t = rng.randrange(ln + 2)
+            return "truncate(%d)" % t, min(ln, t)
+
+        def vec_op(ln, polled=None, top=True):
+            """one vector-side operation as text, and the new length"""
+            nonlocal nsubs
+            r = rng.random()
+            if r < 0.62:
+                return mut(ln)
+            if r < 0.8:
+                body = []
+                l2 = ln
+                for _ in range(rng.randrange(0, 4)):
+                    t, l2 = mut(l2)
+                    body.append(t)
+                return "txn{%s}" % "+".join(body), l2
+            if r < 0.88 and nsubs < 4 and top:
+                live.append(nsubs)
+                pend[nsubs] = 0
+                nsubs += 1
+                return "sub(%s)" % rng.choice("pbb"), ln
+            if r < 0.91 and [k for k in live if k != polled] and top:
+                k = rng.choice([k for k in live if k != polled])
+                live.remove(k)
+                return "dropsub(%d)" % k, ln
+            if 0.91 <= r < (0.92 if top else 0.93):
+                return "dropvec", ln
+            return mut(ln)
+
+        ops.append("sub(%s)" % rng.choice("pbb"))
+        live.append(0)
+        pend[0] = 0
+        nsubs = 1
+        for _ in range(rng.randrange(4, maxops)):
+            r = rng.random()
+            if r < 0.5 or not live:
+                t, length = vec_op(length)
+                ops.append(t)
+                for k in live:
+                    pend[k] += 1
+            elif r < 0.6:
+                k = rng.choice(live)
+                ops.append("poll(%d)" % k)
+            else:
+                behind = [k for k in live if pend[k] > 0]
+                k = rng.choice(behind) if behind and rng.random() < 0.85 else rng.choice(live)
+                inj = []
+                for _ in range(rng.randrange(0, 5)):
+                    one = []
+                    for _ in range(rng.choice((0, 1, 1, 1, 2, 3))):
+                        t, length = vec_op(length, polled=k, top=False)
+                        one.append(t)
+                    inj.append("&".join(one))
+                ops.append("cpoll(%d)<%s>" % (k, "|".join(inj)))
+                pend[k] = 0
+        for k in live:
+            ops += ["poll(%d)" % k] * 3
+        cases.append("cap=%d :: %s" % (cap, " ; ".join(ops)))
+    return cases
